@@ -547,6 +547,10 @@ func c03Exec(c fw.Case) *fw.Result {
 		res.Add("concurrent_decodes", int64(16*3*len(jobs)))
 		res.Eval("concurrent|" + c.Variant)
 		res.Sample = map[string]any{"goroutines": 16, "documents": len(jobs), "variant": c.Variant}
+	case "long":
+		c03Long(res, c)
+	case "globals":
+		c03Globals(res, c)
 	case "random":
 		n := int(c.Int("docs"))
 		for i := 0; i < n; i++ {
@@ -624,6 +628,24 @@ func c03Cases(tier string, seed uint64) []fw.Case {
 	for i := 0; i < n; i++ {
 		cs = append(cs, fw.Case{Kind: "random", Seed: gen.Sub(seed, "c03r", i), P: map[string]int64{"docs": 10}})
 	}
+	// long documents: > 1024 elements per scanner, kinds interleaved
+	for pi := range c03LongPatterns {
+		sizes := []int64{int64(1100 + 350*pi)}
+		if tier == "thorough" {
+			sizes = []int64{1025, 2049, 3100, 5000}
+		}
+		for si, n := range sizes {
+			cs = append(cs, fw.Case{Kind: "long", Seed: gen.Sub(seed, "c03long", pi*10+si), P: map[string]int64{"pattern": int64(pi), "n": n, "noise": int64((pi + si) % 2)}})
+		}
+	}
+	// process-global settings
+	for gi := range xmlGlobals {
+		docs := int64(6)
+		if tier == "thorough" {
+			docs = 60
+		}
+		cs = append(cs, fw.Case{Kind: "globals", Seed: gen.Sub(seed, "c03glob", gi), P: map[string]int64{"global": int64(gi), "docs": docs}})
+	}
 	for i, v := range []string{"plain", "race", "race"} {
 		cs = append(cs, fw.Case{Kind: "concurrent", Variant: v, Seed: gen.Sub(seed, "c03conc", i), P: map[string]int64{"docs": 30}})
 	}
@@ -647,6 +669,7 @@ func init() {
 			"numbers and dates are written in the canonical syntax of the API (decimal without exponent, RFC 3339 'Z' times with optional fraction, 'YYYY-MM-DD hh:mm:ss UTC' note dates); trailing zeros in decimals are the only numeric variation",
 			"diff create actions hold exactly one element, old/new exactly one element each (the augmented-diff shape the API documents); the scanner is expected to deliver old before new, then the next action, i.e. plain document order",
 			"the scanner is driven in six legal consumer styles chosen by the text (canonical; Err after every Scan; Err once after the k-th Scan; Object twice; Object not fetched for every third object, those positions are not compared; Scan called again after it returned false): read-only accessors and legal call orders must not change what is delivered; the value Err returns in mid-scan is not judged",
+			"long documents (1100-5000 elements, six interleaving patterns): all delivered objects are retained and compared after the scan ended; process globals: the same expectations hold with time.Local set to +05:30 / -05:00 / a DST zone / +14:00, GOMAXPROCS=1 and a de_DE locale environment (settings are restored after the case; the cases run no goroutines)",
 			"encoding/xml itself (tokenizer, entity and character-reference decoding) is part of the execution under observation, not of the oracle",
 			"a literal \"]]>\" inside an attribute value is well-formed XML but rejected by Go's encoding/xml tokenizer; the writer never emits it ('>' after ']' is always escaped in attribute values); three non-asserting probe cases record the rejection (probe_* counters)",
 		},
